@@ -1,0 +1,210 @@
+//! Verification hooks.
+//!
+//! This module only exists when the crate is compiled with
+//! `--cfg cactusref_verif`. Nothing in it changes the behaviour of the crate:
+//! it exposes read-only views of private bookkeeping, a notification that is
+//! fired when the crate moves a field out of an allocation, and a few counters.
+
+use alloc::vec::Vec;
+use core::mem;
+use core::ptr;
+use core::sync::atomic::{AtomicUsize, Ordering::Relaxed};
+
+use crate::link::Kind;
+use crate::rc::RcBox;
+use crate::Rc;
+
+/// `field` argument of the moved-out notification: the `value` field.
+pub const FIELD_VALUE: u8 = 0;
+/// `field` argument of the moved-out notification: the `links` field.
+pub const FIELD_LINKS: u8 = 1;
+
+/// Link kind codes used by [`links`] and [`last_group`].
+pub const KIND_FORWARD: u8 = 0;
+/// See [`KIND_FORWARD`].
+pub const KIND_BACKWARD: u8 = 1;
+/// See [`KIND_FORWARD`].
+pub const KIND_LOOPBACK: u8 = 2;
+
+/// Teardown path codes for [`path_count`].
+pub const PATH_PLAIN: usize = 0;
+/// Strong count reached zero while the link table was not empty.
+pub const PATH_WITH_ADOPTIONS: usize = 1;
+/// Orphaned group teardown.
+pub const PATH_CYCLE: usize = 2;
+/// Drop of an already dead handle (early return).
+pub const PATH_DEAD_HANDLE: usize = 3;
+/// Drop that found a non-empty table and left the object alive.
+pub const PATH_REACHABLE: usize = 4;
+
+static MOVED_OUT: AtomicUsize = AtomicUsize::new(0);
+
+static TRACE_CALLS: AtomicUsize = AtomicUsize::new(0);
+static TRACE_POPS: AtomicUsize = AtomicUsize::new(0);
+static TRACE_VISITS: AtomicUsize = AtomicUsize::new(0);
+static TRACE_SCANNED: AtomicUsize = AtomicUsize::new(0);
+static PATHS: [AtomicUsize; 5] = [
+    AtomicUsize::new(0),
+    AtomicUsize::new(0),
+    AtomicUsize::new(0),
+    AtomicUsize::new(0),
+    AtomicUsize::new(0),
+];
+
+const GROUP_CAP: usize = 16;
+static GROUP_LEN: AtomicUsize = AtomicUsize::new(0);
+#[allow(clippy::declare_interior_mutable_const)]
+const ZERO: AtomicUsize = AtomicUsize::new(0);
+static GROUP_ADDR: [AtomicUsize; GROUP_CAP] = [ZERO; GROUP_CAP];
+static GROUP_KIND: [AtomicUsize; GROUP_CAP] = [ZERO; GROUP_CAP];
+
+fn kind_code(kind: Kind) -> u8 {
+    match kind {
+        Kind::Forward => KIND_FORWARD,
+        Kind::Backward => KIND_BACKWARD,
+        Kind::Loopback => KIND_LOOPBACK,
+    }
+}
+
+/// Install (or remove) the function that is called right after the crate has
+/// moved the `value` or the `links` field out of an allocation. The function
+/// receives the address and size of the field that is now uninhabited.
+pub fn set_moved_out_hook(hook: Option<fn(*mut u8, usize, u8)>) {
+    MOVED_OUT.store(hook.map_or(0, |f| f as usize), Relaxed);
+}
+
+pub(crate) unsafe fn moved_out<T>(rcbox: *mut RcBox<T>, field: u8) {
+    let raw = MOVED_OUT.load(Relaxed);
+    if raw == 0 {
+        return;
+    }
+    let hook: fn(*mut u8, usize, u8) = mem::transmute(raw);
+    if field == FIELD_VALUE {
+        hook(
+            ptr::addr_of_mut!((*rcbox).value).cast::<u8>(),
+            mem::size_of::<T>(),
+            field,
+        );
+    } else {
+        hook(
+            ptr::addr_of_mut!((*rcbox).links).cast::<u8>(),
+            mem::size_of_val(&(*rcbox).links),
+            field,
+        );
+    }
+}
+
+/// Address of the allocation behind `this`.
+#[must_use]
+pub fn box_addr<T>(this: &Rc<T>) -> usize {
+    this.ptr.as_ptr() as usize
+}
+
+/// `[size, links offset, links size, value offset, value size]` of the
+/// allocation type for `T`.
+#[must_use]
+pub fn box_layout<T>() -> [usize; 5] {
+    let probe = mem::MaybeUninit::<RcBox<T>>::uninit();
+    let base = probe.as_ptr();
+    unsafe {
+        [
+            mem::size_of::<RcBox<T>>(),
+            ptr::addr_of!((*base).links) as usize - base as usize,
+            mem::size_of_val(&(*base).links),
+            ptr::addr_of!((*base).value) as usize - base as usize,
+            mem::size_of::<T>(),
+        ]
+    }
+}
+
+/// Snapshot of the link table of the object behind `this`, in the table's
+/// iteration order: `(address of the peer allocation, kind, count)`.
+#[must_use]
+pub fn links<T>(this: &Rc<T>) -> Vec<(usize, u8, usize)> {
+    let table = unsafe { this.inner().links().borrow() };
+    table
+        .iter()
+        .map(|(link, &count)| (link.as_ptr() as usize, kind_code(link.kind()), count))
+        .collect()
+}
+
+/// Counters of the reachability trace: `[invocations, worklist pops, distinct
+/// visits, link entries scanned]`.
+#[must_use]
+pub fn trace_counters() -> [usize; 4] {
+    [
+        TRACE_CALLS.load(Relaxed),
+        TRACE_POPS.load(Relaxed),
+        TRACE_VISITS.load(Relaxed),
+        TRACE_SCANNED.load(Relaxed),
+    ]
+}
+
+/// How often each teardown path was taken, indexed by the `PATH_*` constants.
+#[must_use]
+pub fn path_counters() -> [usize; 5] {
+    [
+        PATHS[0].load(Relaxed),
+        PATHS[1].load(Relaxed),
+        PATHS[2].load(Relaxed),
+        PATHS[3].load(Relaxed),
+        PATHS[4].load(Relaxed),
+    ]
+}
+
+/// Reset all counters and the recorded group.
+pub fn reset_counters() {
+    TRACE_CALLS.store(0, Relaxed);
+    TRACE_POPS.store(0, Relaxed);
+    TRACE_VISITS.store(0, Relaxed);
+    TRACE_SCANNED.store(0, Relaxed);
+    for p in &PATHS {
+        p.store(0, Relaxed);
+    }
+    GROUP_LEN.store(0, Relaxed);
+}
+
+/// Members `(allocation address, kind of the key)` of the group handed to the
+/// most recent group teardown, in the order the teardown iterates them
+/// (at most 16 are kept), and the full member count.
+#[must_use]
+pub fn last_group() -> (Vec<(usize, u8)>, usize) {
+    let len = GROUP_LEN.load(Relaxed);
+    let kept = len.min(GROUP_CAP);
+    let members = (0..kept)
+        .map(|i| (GROUP_ADDR[i].load(Relaxed), GROUP_KIND[i].load(Relaxed) as u8))
+        .collect();
+    (members, len)
+}
+
+pub(crate) fn count_trace_call() {
+    TRACE_CALLS.fetch_add(1, Relaxed);
+}
+
+pub(crate) fn count_trace_pop() {
+    TRACE_POPS.fetch_add(1, Relaxed);
+}
+
+pub(crate) fn count_trace_visit() {
+    TRACE_VISITS.fetch_add(1, Relaxed);
+}
+
+pub(crate) fn count_trace_scanned() {
+    TRACE_SCANNED.fetch_add(1, Relaxed);
+}
+
+pub(crate) fn count_path(path: usize) {
+    PATHS[path].fetch_add(1, Relaxed);
+}
+
+pub(crate) fn group_begin() {
+    GROUP_LEN.store(0, Relaxed);
+}
+
+pub(crate) fn group_member(addr: usize, kind: Kind) {
+    let i = GROUP_LEN.fetch_add(1, Relaxed);
+    if i < GROUP_CAP {
+        GROUP_ADDR[i].store(addr, Relaxed);
+        GROUP_KIND[i].store(kind_code(kind) as usize, Relaxed);
+    }
+}
